@@ -42,7 +42,7 @@ import itertools
 import warnings
 from typing import Any, Dict, List, Optional, Sequence, Tuple
 
-from mcx.core import Ctx, HarnessError, Part, digest, pmap
+from mcx.core import Ctx, HarnessError, Part, digest, isolated, jdump, pmap
 from odxmodel import emit_comparam as ec
 from odxmodel import refcomparam as ref
 
@@ -78,11 +78,12 @@ def _tag(cp: Any) -> Optional[str]:
 def check_hierarchy(db: Any, prefix: str, types: Sequence[str], parents: Sequence[Sequence[int]],
                     local: Sequence[Sequence[Dict[str, Any]]], params: Sequence[str],
                     stats: Optional[Part] = None, variant: str = "flat",
-                    record: Optional[List[Dict[str, Any]]] = None) -> List[Tuple[str, str]]:
+                    record: Optional[List[Dict[str, Any]]] = None, rev: int = 0) -> List[Tuple[str, str]]:
     """All oracle comparisons for one hierarchy of a loaded database -> [(finding key, detail)].
     record (if given) receives per layer everything that was observed (for the differential comparison of a refreshed
     database with a freshly loaded one)."""
     out: List[Tuple[str, str]] = []
+    ref.REVISION = rev  # the revision of the COMPARAM-SUBSET document whose defaults the database must show
     lnames = ref.layer_names(types, prefix)
     by_tag = ref.index_instances(local)
     want = ref.views(types, parents, local)
@@ -406,16 +407,63 @@ def run_batch(part: Part, batch: List[Dict[str, Any]]) -> None:
         db = ec.load_batch(batch)
     except Exception as e:  # noqa: BLE001  -- find the culprit(s) by loading the elements one by one
         if len(batch) == 1:
-            part.violation(f"C15/load/raises-{type(e).__name__}", batch[0], f"loading the database: {type(e).__name__}: {e}")
+            raw_violation(part, f"C15/load/raises-{type(e).__name__}", batch[0], f"loading the database: {type(e).__name__}: {e}")
             return
         for c in batch:
             run_batch(part, [c])
         return
     for k, c in enumerate(batch):
         part.count("evaluations")
-        for key, detail in check_hierarchy(db, f"h{k}_", c["types"], c["parents"], c["local"], c["params"], part, c.get("variant", "flat")):
-            part.violation(key, c, detail)
+        for key, detail in check_hierarchy(db, f"h{k}_", c["types"], c["parents"], c["local"], c["params"], part, c.get("variant", "flat"),
+                                           None, int(c.get("subset_rev", 0))):
+            raw_violation(part, key, c, detail)
     part.count("databases")
+
+
+RAW = "RAW|"  # prefix of findings as the units see them (the master re-executes them before they are reported)
+_UNIT: List[Any] = [None]
+
+
+def raw_violation(part: Part, key: str, case: Any, detail: str) -> None:
+    """Record what a unit saw.  A unit evaluates many descriptions in one process, so what it sees may depend on what it
+    loaded before (state shared between objects); run() re-executes the smallest cases of every key in fresh processes and
+    reports a finding only with a case that reproduces there."""
+    part.violation(f"{RAW}{key}|{jdump(_UNIT[0])}", case, detail)
+
+
+def verify_raw_findings(ctx: Ctx) -> None:
+    groups: Dict[str, List[Tuple[int, Any, str, Any]]] = {}
+    for k in [k for k in ctx.viol if k.startswith(RAW)]:
+        size, case, detail = ctx.viol.pop(k)
+        _, key, unit_json = k.split("|", 2)
+        groups.setdefault(key, []).append((size, case, detail, unit_json))
+    for key in sorted(groups):
+        cands = sorted(groups[key], key=lambda x: (x[0], jdump(x[1])))
+        done = False
+        for size, case, detail, _ in cands[:VERIFY_CASES]:
+            ctx.count("isolated_verifications")
+            got = dict(isolated(replay, case))
+            if key in got:
+                ctx.violation(key, case, got[key])
+                done = True
+                break
+        if done:
+            continue
+        # not reproducible alone: the answer depended on what the process had loaded before.  The unit as a whole is the
+        # reproducible witness (it starts in a pristine process).
+        import json
+        ucase = {"unit": json.loads(cands[0][3])}
+        ctx.count("isolated_verifications")
+        got = dict(isolated(replay, ucase))
+        k2 = key + UNIT_SUFFIX
+        if k2 in got:
+            ctx.violation(k2, ucase, got[k2] + "  [not reproducible from the single description: state shared between objects of one process]")
+        else:
+            ctx.violation(key, cands[0][1], cands[0][2])  # (the framework will say that it does not reproduce)
+
+
+VERIFY_CASES = 8
+UNIT_SUFFIX = "/only-after-other-descriptions-in-the-same-process"
 
 
 def _flush(part: Part, buf: List[Dict[str, Any]], force: bool = False) -> None:
@@ -461,6 +509,9 @@ def edit_menu(case: Dict[str, Any]) -> List[List[Any]]:
     for i, ps in enumerate(case["parents"]):
         for p_ in ps:
             out.append(["remove-parent-ref", i, p_])
+    if any(x.get("value", "") is None or None in x.get("subs", []) for l in case["local"] for x in l):
+        # (only defaults change, so only configurations with an omitted value can tell)
+        out.append(["exchange-subset", 1])
     return out
 
 
@@ -477,6 +528,8 @@ def edited_case(case: Dict[str, Any], edit: List[Any]) -> Dict[str, Any]:
         c["local"][edit[1]] = c["local"][edit[1]] + [ref.make_instance(edit[1], p_, edit[2], 0, variant) for p_ in case["params"]]
     elif edit[0] == "remove-parent-ref":
         c["parents"][edit[1]].remove(edit[2])
+    elif edit[0] == "exchange-subset":
+        c["subset_rev"] = edit[1]
     return c
 
 
@@ -485,9 +538,31 @@ def apply_edit(db: Any, case: Dict[str, Any], ecase: Dict[str, Any], edit: List[
     ComparamInstance.from_et); -> undo list [(object, attribute, old value)]."""
     from xml.etree import ElementTree
     from odxtools.comparaminstance import ComparamInstance
+    undo: List[Tuple[Any, str, Any]] = []
+    if edit[0] == "exchange-subset":
+        # the COMPARAM-SUBSET document is replaced by a revision of it with other PHYSICAL-DEFAULT-VALUEs (public API only:
+        # remove the category from the database's list, add_odx_file() of the new document)
+        import os
+        old = db.comparam_subsets[ref.SUBSET]
+        db.comparam_subsets.remove(old)
+        path = os.path.join(ec.scratch_dir(), "revised.odx-cs")
+        with open(path, "w", encoding="utf-8") as f:
+            f.write(ec.subset_xml(case.get("variant", "flat"), edit[1]))
+        try:
+            db.add_odx_file(path)
+        finally:
+            os.unlink(path)
+        new = db.comparam_subsets[ref.SUBSET]
+        if new is old:
+            raise HarnessError("the revised COMPARAM-SUBSET was not added")
+
+        def restore() -> None:
+            db.comparam_subsets.remove(new)
+            db.comparam_subsets.append(old)
+        undo.append((restore, "", None))
+        return undo
     lnames = ref.layer_names(case["types"], prefix)
     raw = db.diag_layers[lnames[edit[1]]].diag_layer_raw
-    undo: List[Tuple[Any, str, Any]] = []
     if edit[0] == "remove-parent-ref":
         hit = [pr for pr in raw.parent_refs if pr.layer_ref.ref_id == lnames[edit[2]]]
         if len(hit) != 1:
@@ -538,7 +613,8 @@ def refresh_problems(case: Dict[str, Any], children_first: bool, part: Optional[
             out.append((tagk + f"raises-{type(e).__name__}", f"({how}) after {edit}: refresh(): {type(e).__name__}: {e}"))
         else:
             obs: List[Dict[str, Any]] = []
-            probs = check_hierarchy(db, "h0_", ecase["types"], ecase["parents"], ecase["local"], ecase["params"], None, variant, obs)
+            probs = check_hierarchy(db, "h0_", ecase["types"], ecase["parents"], ecase["local"], ecase["params"], None, variant, obs,
+                                    int(ecase.get("subset_rev", 0)))
             for key, detail in probs:
                 out.append((tagk + "/".join(key.split("/")[1:3]), f"({how}) after {edit} and refresh(): {detail}"))
             if not probs:
@@ -548,17 +624,23 @@ def refresh_problems(case: Dict[str, Any], children_first: bool, part: Optional[
                 part.count("refresh_evaluations")
                 part.add("refresh_edit_kinds", edit[0])
         for obj, attr, oldv in reversed(undo):
-            setattr(obj, attr, oldv)
+            if callable(obj):
+                obj()
+            else:
+                setattr(obj, attr, oldv)
     # differential oracle: a refreshed database shows what a database freshly loaded from the edited description shows
-    for lo in range(0, len(seen), BATCH):
-        chunk = seen[lo:lo + BATCH]
+    seen.sort(key=lambda x: int(x[1].get("subset_rev", 0)))  # (one COMPARAM-SUBSET revision per freshly loaded database)
+    cuts = [0] + [j for j in range(1, len(seen)) if seen[j][1].get("subset_rev", 0) != seen[j - 1][1].get("subset_rev", 0)] + [len(seen)]
+    chunks = [seen[lo2:lo2 + BATCH] for a_, b_ in zip(cuts, cuts[1:]) for lo2 in range(a_, b_, BATCH)]
+    for chunk in chunks:
         try:
             fdb = ec.load_batch([e for _, e, _ in chunk])
         except Exception:  # noqa: BLE001 -- the main phase judges loading
             continue
         for k, (edit, ecase, obs) in enumerate(chunk):
             fresh: List[Dict[str, Any]] = []
-            check_hierarchy(fdb, f"h{k}_", ecase["types"], ecase["parents"], ecase["local"], ecase["params"], None, variant, fresh)
+            check_hierarchy(fdb, f"h{k}_", ecase["types"], ecase["parents"], ecase["local"], ecase["params"], None, variant, fresh,
+                            int(ecase.get("subset_rev", 0)))
             if part is not None:
                 part.count("refresh_differential_comparisons")
             for i, (a, b) in enumerate(zip(obs, fresh)):
@@ -587,7 +669,80 @@ def refresh_unit(u: Tuple[Any, ...]) -> Part:
             for key, detail in refresh_problems(case, children_first, part):
                 if key not in done:
                     done.add(key)
-                    part.violation(key, case, detail)
+                    raw_violation(part, key, case, detail)
+    return part
+
+
+# ---------------------------------------------------------------------------------------------
+# sequences: two DIFFERENT configurations loaded one after the other in ONE process
+# ---------------------------------------------------------------------------------------------
+def _observe_alone(case: Dict[str, Any]) -> Tuple[List[Tuple[str, str]], List[Dict[str, Any]]]:
+    import odxtools.exceptions
+    odxtools.exceptions.strict_mode = True
+    rec: List[Dict[str, Any]] = []
+    db = ec.load_batch([case])
+    probs = check_hierarchy(db, "h0_", case["types"], case["parents"], case["local"], case["params"], None, case.get("variant", "flat"), rec)
+    return probs, rec
+
+
+def _sequence_run(first: Dict[str, Any], second: Dict[str, Any]) -> Tuple[List[Tuple[str, str]], List[Dict[str, Any]]]:
+    import odxtools.exceptions
+    odxtools.exceptions.strict_mode = True
+    db1 = ec.load_batch([first])
+    for layer in db1.diag_layers:  # (the first database is used, not only loaded)
+        for cp in getattr(layer, "comparam_refs", []):
+            layer.get_comparam(cp.short_name)
+    return _observe_alone(second)
+
+
+def sequence_problems(first: Dict[str, Any], second: Dict[str, Any], part: Optional[Part],
+                      fresh: Optional[List[Dict[str, Any]]] = None) -> List[Tuple[str, str]]:
+    """Load `first`, then `second` (two Database objects, one process -- a child forked for this pair), judge `second`
+    against the reference and against what `second` shows in a process that has loaded nothing else."""
+    probs, rec = isolated(_sequence_run, first, second)
+    out = [("C15/sequence/" + "/".join(key.split("/")[1:3]), f"after another database was loaded in the same process: {detail}")
+           for key, detail in probs]
+    if not probs:
+        if fresh is None:
+            fresh = isolated(_observe_alone, second)[1]
+        if part is not None:
+            part.count("sequence_differential_comparisons")
+        for i, (a, b) in enumerate(zip(rec, fresh)):
+            a = dict(a, view=sorted(a["view"], key=repr))
+            b = dict(b, view=sorted(b["view"], key=repr))
+            if a != b:
+                what = next(k_ for k_ in a if a[k_] != b[k_])
+                out.append((f"C15/sequence/differs-from-fresh-process/{what}",
+                            f"layer {i} shows {str(a[what])[:250]} after another database was loaded, {str(b[what])[:250]} in a fresh process"))
+                break
+    return out
+
+
+def sequence_configs(n: int) -> List[Dict[str, Any]]:
+    """The configurations the pairs are drawn from: 1 layer: PROTOCOL with every placement; 2 layers: PROTOCOL <- BASE-VARIANT
+    with every combination of kinds (values given)."""
+    out = []
+    if n == 1:
+        for pl in ref.placements((ref.PROT,), 2):
+            out.append(case_of((ref.PROT,), ((),), ref.make_instances(pl, ref.CORE), ref.CORE))
+    else:
+        for pl in ref.placements((ref.PROT, ref.BV), (ref.M_GIVEN,)):
+            out.append(case_of((ref.PROT, ref.BV), ((), (0,)), ref.make_instances(pl, ref.CORE), ref.CORE))
+    return out
+
+
+def sequence_unit(u: Tuple[Any, ...]) -> Part:
+    _, n, first_index = u
+    part = Part()
+    cfgs = sequence_configs(n)
+    a = cfgs[first_index]
+    for j, b in enumerate(cfgs):
+        if j == first_index:
+            continue
+        part.count("evaluations")
+        part.count("sequence_pairs")
+        for key, detail in sequence_problems(a, b, part):
+            raw_violation(part, key, {"sequence": [a, b]}, detail)
     return part
 
 
@@ -613,8 +768,11 @@ CROSS_SETS = {
 
 def unit(u: Tuple[Any, ...]) -> Part:
     kind = u[0]
+    _UNIT[0] = list(u)
     if kind == "refresh":
         return refresh_unit(u)
+    if kind == "sequence":
+        return sequence_unit(u)
     part = Part()
     buf: List[Dict[str, Any]] = []
     if kind == "aligned":
@@ -689,11 +847,15 @@ def unit(u: Tuple[Any, ...]) -> Part:
                         insts: List[Dict[str, Any]] = []
                         if with_table:
                             insts.append(ref.make_instance(0, table, proto, 0, variant))
+                            if with_table == "zero":  # every identifier / address is 0 (a number, not "nothing")
+                                insts[-1]["subs"] = ["0"] * len(insts[-1]["subs"])
                         for param, sit in [(frame, fs), (baud, bs)] + [(x, os_) for x in others]:
                             if sit == "absent":
                                 continue
                             inst = ref.make_instance(0, param, proto, ref.M_OMIT if sit == "default" else ref.M_GIVEN, variant)
-                            if sit not in ("default", "given"):
+                            if sit == "zero":
+                                inst["value"] = "CANFD TX_DL=0" if param == frame else "0"
+                            elif sit not in ("default", "given"):
                                 inst["value"] = sit if param == frame else MALFORMED_NUMBER
                                 inst["malformed"] = True
                             insts.append(inst)
@@ -708,9 +870,9 @@ def unit(u: Tuple[Any, ...]) -> Part:
 
 
 # situations of a simple parameter / of CP_CANFDTxMaxDataLength (the strings are malformed values written verbatim)
-SIMPLE_SITUATIONS = ("absent", "default", "given", "malformed")
+SIMPLE_SITUATIONS = ("absent", "default", "given", "zero", "malformed")
 MALFORMED_NUMBER = "12ab"
-FRAME_SITUATIONS = ("absent", "default", "given", "CANFD TX_DL = 48", "no frame size here", "CANFD TX_DL=unknown")
+FRAME_SITUATIONS = ("absent", "default", "given", "zero", "CANFD TX_DL = 48", "no frame size here", "CANFD TX_DL=unknown")
 SITUATION_LAYERS = (ref.PROT, ref.BV)
 
 
@@ -760,11 +922,11 @@ def plan(quick: bool) -> Tuple[List[Tuple[Any, ...]], Dict[str, Any], int]:
             if t != ref.ESD:
                 units.append(("subsets", t, variant))
                 expect += 3 * 2 ** len(ref.VARIANTS[variant]) * 2
-    bounds["situations"] = {"layer_types": list(SITUATION_LAYERS), "table": ["absent"] + ["flat", "can-only", "doip-only"],
+    bounds["situations"] = {"layer_types": list(SITUATION_LAYERS), "table": ["absent", "flat", "flat with all values 0", "can-only", "doip-only"],
                             "frame_size_parameter": list(FRAME_SITUATIONS), "baud_rate_parameter": list(SIMPLE_SITUATIONS),
                             "other_simple_parameters": list(SIMPLE_SITUATIONS), "malformed_number": MALFORMED_NUMBER}
     for t in SITUATION_LAYERS:
-        for variant, tables in (("flat", (True,)), ("flat", (False,)), ("can-only", (True,)), ("doip-only", (True,))):
+        for variant, tables in (("flat", (True,)), ("flat", (False,)), ("flat", ("zero",)), ("can-only", (True,)), ("doip-only", (True,))):
             units.append(("situations", t, variant, tables))
             expect += 3 * len(FRAME_SITUATIONS) * len(SIMPLE_SITUATIONS) ** 2
     # re-resolution after edits (one container per layer, both container orders)
@@ -778,8 +940,13 @@ def plan(quick: bool) -> Tuple[List[Tuple[Any, ...]], Dict[str, Any], int]:
             modes: Any = 2 if n <= 2 else (ref.M_GIVEN,)
             units.append(("refresh", n, hidx, modes, (True,) if (n == 3 and quick) else (False, True)))
             bounds["refresh_vectors"] = bounds.get("refresh_vectors", 0) + ref.n_placements(h[0], modes)
+    # sequences of two different configurations in one process
+    bounds["sequence_pairs"] = "all ordered pairs of the 11 one-layer PROTOCOL configurations; all ordered pairs of the 25 " \
+                               "PROTOCOL <- BASE-VARIANT configurations with given values"
+    for n in (1, 2):
+        units.extend(("sequence", n, i) for i in range(len(sequence_configs(n))))
     # the long units first (the pool hands units out in order; a long unit at the end would leave workers idle)
-    units.sort(key=lambda x: 0 if x[0] == "refresh" else 1 if x[0] == "situations" else 2)
+    units.sort(key=lambda x: 0 if x[0] == "refresh" else 1 if x[0] in ("situations", "sequence") else 2)
     return units, bounds, expect
 
 
@@ -847,6 +1014,11 @@ def run(ctx: Ctx) -> None:
             "DOCREF), once with the parents' containers added first and once with the children's first; edits are made on the raw "
             "layer data (comparam_refs list replaced, new instances from ComparamInstance.from_et; parent_refs list replaced), then "
             "Database.refresh(); edits are undone before the next one, so every refresh also has to forget the previous edit",
+            "every unit runs in a forked child of a pristine worker; what a unit sees is reported only after the smallest cases of the "
+            "key were re-executed in a fresh process (pristine master fork): with a case that reproduces alone, else with the whole "
+            "unit as the case (key suffix " + UNIT_SUFFIX + ")",
+            "sequence phase: the first database is loaded and queried, then the second one is loaded in the same process (a child "
+            "forked for the pair); the second one is judged against the reference and against its answers in a process of its own",
             "lookups and accessors are judged on the view / instance the real code produced (the view itself is judged against the "
             "reference), so one root cause yields one finding key",
             "a parameter is a COMPARAM specification (ODXLINK id), not a short name: namesakes of two subsets are both in the view; "
@@ -857,7 +1029,10 @@ def run(ctx: Ctx) -> None:
             "the nested sub-parameter itself is not read through get_subvalue (it has no string value); only its simple siblings are",
             "COMPLEX-PHYSICAL-DEFAULT-VALUE and ALLOW-MULTIPLE-VALUES lists are not generated",
         ]
-        pmap(ctx, unit, units)
+        # every unit runs in a forked child of its pristine worker: state the library shares between objects / calls cannot leak
+        # from one unit into the next (and a finding is recorded only with a case that reproduces in a fresh process)
+        pmap(ctx, unit, units, isolate=True)
+        verify_raw_findings(ctx)
         c = ctx.counts
         ctx.sample(case_of((ref.PROT, ref.BV), ((), (0,)), ref.make_instances([((None, 0),), (("P1", 1),)], ref.CORE), ref.CORE))
         kinds = ctx.sets.get("placement_kinds", set())
@@ -878,13 +1053,15 @@ def run(ctx: Ctx) -> None:
                   c.get("views_with_inherited_entries", 0) > 0 and c.get("views_with_overridden_ancestor_instances", 0) > 0)
         ctx.guard("both MUST and DON'T-CARE lookups occurred", c.get("lookups_dontcare", 0) > 0 and c.get("lookups", 0) > c.get("lookups_dontcare", 0))
         ctx.guard("typed accessors were compared with numbers", c.get("accessor_calls", 0) > 1000)
+        ctx.guard("sequence phase: all ordered pairs were run and compared with fresh-process answers",
+                  c.get("sequence_pairs", 0) == 11 * 10 + 25 * 24 and c.get("sequence_differential_comparisons", 0) > 0)
         ctx.guard("accessors met absent / default-only / explicit / malformed parameters; frame size asked without the parameter on "
                   "a CAN bus and on a bus that is not CAN; malformed numbers were refused and the documented fallback was seen",
-                  len(ctx.sets.get("situations", ())) == 4 * len(FRAME_SITUATIONS) * len(SIMPLE_SITUATIONS) ** 2
+                  len(ctx.sets.get("situations", ())) == 5 * len(FRAME_SITUATIONS) * len(SIMPLE_SITUATIONS) ** 2
                   and c.get("max_payload_without_parameter_can", 0) > 0 and c.get("max_payload_without_parameter_not_can", 0) > 0
                   and c.get("accessor_refused_malformed_value", 0) > 0 and c.get("accessor_documented_fallback_for_malformed_value", 0) > 0)
         ctx.guard("re-resolution: every edit kind was applied, refreshed databases were compared with fresh loads, all vectors done",
-                  ctx.sets.get("refresh_edit_kinds", set()) == {"remove-instances", "replace-instances", "add-instances", "remove-parent-ref"}
+                  ctx.sets.get("refresh_edit_kinds", set()) == {"remove-instances", "replace-instances", "add-instances", "remove-parent-ref", "exchange-subset"}
                   and c.get("refresh_differential_comparisons", 0) > 1000 and c.get("refresh_vectors", 0) == bounds["refresh_vectors"])
         ctx.guard("every subset of omitted sub-values was generated for every specification variant",
                   len(ctx.sets.get("omitted_subvalue_sets", ())) == sum(2 ** len(v) for v in ref.VARIANTS.values()))
@@ -899,11 +1076,16 @@ def replay(case: Any) -> List[Tuple[str, str]]:
     try:
         if case.get("refresh") is not None:
             return refresh_problems(case, bool(case["refresh"]["children_first"]), None)
+        if case.get("unit") is not None:
+            p_ = unit(tuple(case["unit"]))
+            return sorted({(k.split("|", 2)[1] + UNIT_SUFFIX, v[2]) for k, v in p_.viol.items() if k.startswith(RAW)})
+        if case.get("sequence") is not None:
+            return sequence_problems(case["sequence"][0], case["sequence"][1], None)
         try:
             db = ec.load_batch([case])
         except Exception as e:  # noqa: BLE001
             return [(f"C15/load/raises-{type(e).__name__}", f"loading the database: {type(e).__name__}: {e}")]
         return check_hierarchy(db, "h0_", case["types"], [tuple(p) for p in case["parents"]], case["local"], case["params"],
-                               None, case.get("variant", "flat"))
+                               None, case.get("variant", "flat"), None, int(case.get("subset_rev", 0)))
     finally:
         odxtools.exceptions.strict_mode = old
